@@ -75,10 +75,11 @@ def build_columns(utrench, specs):
                     elif c[0] == 'end':
                         wg.end()
                 wgs.append(wg)
-            base = {k: v for k, v in kw.items() if k not in ('reparameterised', 'built_with')}
+            base = {k: v for k, v in kw.items() if k not in ('reparameterised', 'built_with', 'never_dug')}
             built = dict(base, **kw.get('built_with', {}))
             col = (UTrenchColumn if utrench else TrenchColumn)(**built)
-            col.dig_from_waveguide(wgs)
+            if not kw.get('never_dug'):
+                col.dig_from_waveguide(wgs)
             if kw.get('reparameterised'):
                 _ = (col.n_repeat, col.fabrication_time, col.total_height)
                 col.h_box, col.deltaz, col.z_off = kw['h_box'], kw['deltaz'], kw['z_off']
@@ -88,7 +89,7 @@ def build_columns(utrench, specs):
 
 def run_case(rng):
     utrench = rng.random() < 0.35
-    ncols = rng.choice([1, 1, 2])
+    ncols = rng.choice([1, 1, 2, 3])
     cfgd = pgm.gen_cfg(rng, allow_bad_laser=False)
     cfgd['output_digits'] = rng.choice([6, 6, 5, 9])
     cfgd['export_dir'] = rng.choice(['', 'out'])
@@ -103,6 +104,8 @@ def run_case(rng):
             kw['deltaz'] = rng.choice([0.02, 0.01, 0.033])
             kw['z_off'] = rng.choice([-0.02, 0.0])
             kw['reparameterised'] = True
+        if ncols > 1 and rng.random() < 0.25:
+            kw['never_dug'] = True       # a column without blocks (never dug / nothing found) among the others
         wg_param = dict(speed=20, radius=wgs[0].radius, pitch=descr['pitch'], int_dist=0.007, int_length=0.0, cmd_rate_max=400,
                         samplesize=(8, 3), lsafe=1)
         specs.append((descr['calls'], kw, wg_param))
